@@ -275,7 +275,15 @@ def real_stream(run):
             pots.append(("tiny-near#%d" % i, tiny, lambda r, f=tiny: f.deriv(r)))
             cut = round(rng.uniform(0.4, 0.6), 2)
             nr = 4 * rng.randint(250, 320)
-        ps = [Potential("A%d" % j, "B", f) for j, (desc, f, fref) in enumerate(pots)]
+        hs = [None] * len(pots)
+        if i % 5 == 2:
+            # a derivative-less well on a large energy offset, tabulated with a user-chosen differentiation step (Potential(..., h=H)): the central difference of a
+            # quadratic is exact for every H and its round-off is far below the tolerance for the H asked for, but visible if the requested step is dropped in favour
+            # of the default 1e-6 (round-7 seed C02_9; the same scenario as in C01, whose tie C01_code_gradient states the step)
+            k_, r0_, off_ = round(rng.uniform(0.5, 8.0), 2), round(rng.uniform(1.0, 4.0), 2), float(rng.choice([1e6, 4e6, 1e7]))
+            pots.append(("well%g+%g(r-%g)^2,h" % (off_, k_, r0_), (lambda r, k_=k_, r0_=r0_, off_=off_: off_ + k_ * (r - r0_) ** 2), (lambda r, k_=k_, r0_=r0_: 2.0 * k_ * (r - r0_))))
+            hs.append(rng.choice([0.05, 0.1, 0.25]))
+        ps = [Potential("A%d" % j, "B", f) if h is None else Potential("A%d" % j, "B", f, h) for j, ((desc, f, fref), h) in enumerate(zip(pots, hs))]
         s = io.StringIO()
         DLPoly_PairTabulation(ps, cut, nr).write(s)
         run.case(key=("real", nr, cut, tuple(d for d, _, _ in pots)), kind="real")
@@ -315,7 +323,8 @@ def real_stream(run):
                     problem = "%s: energy %d printed %s, V(k*delpot)=%r" % (desc, k, vals[k - 1], ev)
                     break
                 ref = -r * slope
-                if abs(float(Fr(vals[nr + k - 1])) - ref) > 1e-5 * max(1.0, abs(ref)) + 1e-9 * abs(ev) * r + 1e-99:
+                tolf = (0.6e-7 * abs(ref) + 1e-6 * r) if desc.endswith(",h") else (1e-5 * max(1.0, abs(ref)) + 1e-9 * abs(ev) * r + 1e-99)
+                if abs(float(Fr(vals[nr + k - 1])) - ref) > tolf:
                     problem = "%s: force value %d printed %s, -r dV/dr = %r" % (desc, k, vals[nr + k - 1], ref)
                     break
         if problem:
